@@ -37,14 +37,21 @@ def run(ctx):
     ctx.extra["non_atomic_variants_rejected"] = ["add_split", "dec_split", "or_split"]
     files = []
     seq = seq_script(rng)
-    for variant in ("default", "sync", "sim"):
-        label = {"default": "c11"}.get(variant, variant)
-        exe = build.driver("drv_atomic", ["drv_atomic.c"], variant=variant)
+    # (the last two: unoptimised builds of the library - the repository's default configuration has no optimisation flags)
+    for variant in ("default", "sync", "sim", "default@O0", "sync@O0"):
+        opt = "-O1"
+        if "@" in variant:
+            variant, o = variant.split("@")
+            opt = "-" + o
+        label = {"default": "c11"}.get(variant, variant) + ("" if opt == "-O1" else opt)
+        exe = build.driver("drv_atomic", ["drv_atomic.c"], variant=variant, opt=opt)
         # sequential, all operand classes (pieces of <= 8000 operations, one driver run and one trace each)
         for pi in range(0, len(seq), 8000):
-            sp = ctx.path("seq_%s_%d.script" % (variant, pi))
+            if opt != "-O1" and pi > 0:
+                break
+            sp = ctx.path("seq_%s%s_%d.script" % (variant, opt.replace("-", "_"), pi))
             open(sp, "w").write("\n".join(seq[pi:pi + 8000]) + "\n")
-            base = ctx.path("seq_%s_%d" % (variant, pi))
+            base = ctx.path("seq_%s%s_%d" % (variant, opt.replace("-", "_"), pi))
             rc, out, to = run_driver([exe, "seq", sp, base], timeout=120)
             if rc != 0 or to:
                 ctx.violation("%s:seq-crash" % label, "sequential atomic script rc=%s: %s" % (rc, out[-400:]), [sp])
@@ -53,7 +60,9 @@ def run(ctx):
             ctx.events += len(evs)
             files.append((label + "-seq", p))
         for (nth, cores) in ([(6, "0-3"), (3, "0")] if ctx.quick else [(2, "0-1"), (4, "0-1"), (8, "0-7"), (16, "0-15"), (3, "0")]):
-            base = ctx.path("conc_%s_%d" % (variant, nth))
+            if opt != "-O1" and nth != 6 and nth != 8:
+                continue
+            base = ctx.path("conc_%s%s_%d" % (variant, opt.replace("-", "_"), nth))
             cmd = ["taskset", "-c", cores, exe, "conc", base, str(nth), str(8 if ctx.quick else 24), str(120 if ctx.quick else (250 if nth < 16 else 100)), str(rng.randint(1, 10 ** 6))]
             rc, out, to = run_driver(cmd, timeout=120)
             if to or rc != 0:
